@@ -127,6 +127,8 @@ def closed_layout(w, a, h, s):   # unified_result / unified_layout_invalid ; Non
 def expected_for(line):
     """closed-form result line for a size-function / model line, or None when the line has no closed form"""
     f = line.split()
+    if f[0] in ("fp", "tbl", "gs", "cmp", "seq", "layenc", "errs"):
+        return None
     k, v = f[0], [int(x) for x in f[1:]]
     if k == "pw":
         return "pw %d" % closed_pw(*v)
@@ -169,8 +171,9 @@ def expected_for(line):
     return None
 
 
-IMPL_KINDS = {"pw", "ph", "bs", "ps", "pwr", "phr", "bsr", "psr", "sc", "tbl", "gs", "layenc", "errs", "cmp", "seq"}
-MODEL_KINDS = {"pw", "ph", "bs", "bs32", "ps", "ps32", "pwr", "phr", "bsr", "psr", "sc", "tbl", "gs", "lay", "cd", "dct"}
+FP_DIST = {}
+IMPL_KINDS = {"pw", "ph", "bs", "ps", "pwr", "phr", "bsr", "psr", "sc", "tbl", "gs", "fp", "layenc", "errs", "cmp", "seq"}
+MODEL_KINDS = {"pw", "ph", "bs", "bs32", "ps", "ps32", "pwr", "phr", "bsr", "psr", "sc", "tbl", "gs", "fp", "lay", "cd", "dct"}
 
 
 def layenc_line(w, a, h, s):
@@ -318,6 +321,30 @@ def gen_cases(ctx):
         ex = [rng.choice([-1, 0, 0, 1, 3, 7, 16, 33]) for _ in range(3)]
         add("cmp %d %d %d %d %d %d %d %d %d %d %d %d" % (rng.below(1 << 60), w, h, s, rng.choice([5, 30, 50, 75, 90, 95, 100]), sfi,
             rng.choice(ALIGNS), rng.choice(pfs), ex[0], ex[1], ex[2], rng.below(64)), "compose")
+    # ---- footprint of the bytes tj3EncodeYUVPlanes8 / tj3DecompressToYUVPlanes8 write into each plane, for every kind of stride
+    #      (NULL array, 0, exact, padded, negative, shorter than a row): real library vs model/YuvCopy.v (copy loops), incl.
+    #      what libjpeg derives (blocks per component, output size) and which path (intermediate buffer / direct) is taken
+    nf = ctx.n(3000, 24000)
+    for i in range(nf):
+        fn = "enc" if i % 2 == 0 else "dtp"
+        s = rng.below(nsamp)
+        w, h = rng.range(1, 70), rng.range(1, 70)
+        if fn == "dtp" and rng.chance(1, 3):      # iMCU multiples: the direct path
+            w, h = T["mcuw"][s] * rng.range(1, 5), T["mcuh"][s] * rng.range(1, 5)
+        sfi = T["sf"].index((1, 1)) if (fn == "enc" or rng.chance(1, 2)) and (1, 1) in T["sf"] else rng.below(nsf)
+        n_, d_ = T["sf"][sfi] if fn == "dtp" else (1, 1)
+        sw = cdiv(w * n_, d_)
+        snull = 1 if rng.chance(1, 8) else 0
+        st, cls = [], []
+        for c in range(3):
+            pw = spec_pw(c, sw, s) if c < ncomp(s) else 1
+            k = rng.below(9)
+            v, name = [(0, "zero"), (pw, "exact"), (pw + rng.range(1, 40), "padded"), (-pw, "neg-exact"), (-(pw + rng.range(1, 40)), "neg-padded"),
+                       (rng.range(1, max(1, pw - 1)), "short"), (-rng.range(1, max(1, pw - 1)), "neg-short"), (1, "one"), (rng.range(pw, 4 * pw + 5), "wide")][k]
+            st.append(v)
+            cls.append("null" if snull else name)
+        add("fp %s %d %d %d %d %d %d %d %d" % (fn, snull, st[0], st[1], st[2], w, h, s, sfi), "footprint-" + fn)
+        FP_DIST[(fn, cls[0])] = FP_DIST.get((fn, cls[0]), 0) + 1
     # ---- TurboJPEG 2.x entry points (tjDecompressToYUV2/ToYUV/ToYUVPlanes/tjDecompress(TJ_YUV), tjDecodeYUV[Planes], tjEncodeYUV3/Planes,
     #      tjCompressFromYUV[Planes], tjBufSizeYUV2, tjPlaneSizeYUV, tjPlaneWidth/Height) on REUSED handles over image sequences with
     #      changing subsampling and dimensions (A, B, A', ...), with and without a header call in between: each result must be the
@@ -526,6 +553,14 @@ def run_cases(ctx, cases, exes, drv, flavours):
             else:
                 key = (kind, line)
         else:
+            if kind == "fp":
+                for fl in flavours:
+                    o = outs[fl].get(i)
+                    if o is not None and o.startswith("fp FAIL"):
+                        ctx.violation("per-plane function writes outside the tj3YUVPlaneSize extent (%s build): %s :: %s" % (fl, line, o[8:200]),
+                                      {"case": line, "flavour": fl, "impl": o}, signature="footprint:" + line.split()[1])
+                if impl is not None and "lj" in impl:
+                    FP_DIST[("dtp-path", impl.split()[-1])] = FP_DIST.get(("dtp-path", impl.split()[-1]), 0) + 1
             # size functions: implementation vs closed form (the published geometry) is the property-level oracle
             if impl is not None and exp is not None and impl != exp:
                 ctx.violation("%s: implementation returns `%s`, published geometry gives `%s`" % (line, impl[:80], exp[:80]),
@@ -552,6 +587,7 @@ def run_cases(ctx, cases, exes, drv, flavours):
         ctx.count(stream, n, key)
         if i % 4001 == 17 or (kind == "cmp" and i % 2003 == 0):
             ctx.sample({"case": line[:200], "impl": str(impl)[:200], "model": str(model)[:100]})
+    ctx.cov["footprint_case_distribution"] = {"%s:%s" % k: v for k, v in sorted(FP_DIST.items())}
     ctx.cov["traces_validated_against_impl"] = validated
     ctx.cov["model_impl_disagreements"] = disagree
     ctx.cov["rule"] = ("size functions: exhaustive w,h<=70 x 7 levels x 7 alignments x components/strides through the real API, the extracted model and the "
